@@ -172,6 +172,11 @@ def synth(spec):
                 if v not in p.get("no_variants", ()):
                     r = v
             seq.append(r)
+        # chain ends drawn from their own pools (separate generator: the rest of the structure stays as it was)
+        if p.get("nterm_pool"):
+            seq[0] = random.Random(spec["seed"] * 7 + len(chains)).choice(p["nterm_pool"])
+        if p.get("cterm_pool"):
+            seq[-1] = random.Random(spec["seed"] * 11 + len(chains)).choice(p["cterm_pool"])
         hyd = rng.choice(p.get("hydrogens", ["none", "none", "none", "all", "side", "some"]))
         amide = bool(p.get("nterm_amide_prob")) and hyd in ("all", "some") and rng.random() < p["nterm_amide_prob"]
         chains.append(S.peptide(seq, rng, hydrogens=hyd, cterm_oxt=rng.random() < p.get("oxt_prob", 0.8),
